@@ -114,8 +114,24 @@ def analyze(facts_path, out_path, jobs=None, only=''):
     roots.sort(key=_weight)
     roots = [(k, v) for k in roots for v in spec.root_variants(k)]
     roots += [(k, 'internal' + (':' + v if v else '')) for k in spec.internal_roots() if only in k for v in spec.internal_variants(k)]
-    if not only or only in 'kernel:classes':
-        roots += [('kernel:classes', v) for v in kernel.class_tasks(f)]
+    # the class runs depend only on the calendar code (date.rs / common.rs bodies and constants) and on the analyser:
+    # their results are reused across trees in which that code is byte-identical (content-addressed cache)
+    kcached = None
+    kpath = None
+    if only == 'calendar:all' or not only or only in 'kernel:classes':
+        ktasks = kernel.class_tasks(f, full=(only == 'calendar:all'))
+        if ktasks:
+            kpath = _kcache_path(f, only == 'calendar:all')
+            if os.path.exists(kpath):
+                try:
+                    with open(kpath) as fh:
+                        kcached = json.load(fh)
+                except Exception:
+                    kcached = None
+        if only == 'calendar:all':
+            roots = []
+        if kcached is None:
+            roots += [('kernel:classes', v) for v in ktasks]
     jobs = jobs or max(1, min(15, (os.cpu_count() or 2) - 1))
     sys.setrecursionlimit(20000)
     results = []
@@ -132,6 +148,16 @@ def analyze(facts_path, out_path, jobs=None, only=''):
             kernel_obls = pool.apply(_kernel_obls)
     # calendar kernel by residue classes: one pseudo root carrying the C01 formula contracts
     kc = [r for r in results if 'kclass' in r]
+    if kc and kpath and not any(r['incomplete'] for r in kc):
+        try:
+            os.makedirs(os.path.dirname(kpath), exist_ok=True)
+            with open(kpath + f'.{os.getpid()}.tmp', 'w') as fh:
+                json.dump(kc, fh)
+            os.replace(kpath + f'.{os.getpid()}.tmp', kpath)
+        except OSError:
+            pass
+    if kcached is not None:
+        kc = kcached
     if kc:
         results = [r for r in results if 'kclass' not in r]
         inc = [r['incomplete'] for r in kc if r['incomplete']]
@@ -183,6 +209,43 @@ def analyze(facts_path, out_path, jobs=None, only=''):
         json.dump(out, fh)
     os.replace(out_path + '.tmp', out_path)
     return out
+
+
+def _kcache_path(f, full):
+    """cache file for the class runs: keyed by the analyser and by everything the four calendar entry points can reach
+    (bodies through resolved callees and function constants, named constants, the types involved)"""
+    import hashlib
+    import re
+    from . import pipeline
+    h = hashlib.sha256()
+    h.update(pipeline.e1_key().encode())
+    h.update(b'full' if full else b'quick')
+    h.update(json.dumps([f.raw.get('overflow_checks'), f.raw.get('debug_assertions'), sorted(f.features)]).encode())
+    consts = {c['def']: c for c in f.raw.get('consts', [])}
+    statics = {s_['def']: s_ for s_ in f.raw.get('statics', [])}
+    todo = [kernel.D2J, kernel.J2D, kernel.ISO_T, kernel.ISO_R]
+    seen = set()
+    rx_key = re.compile(r'"key": "((?:[^"\\]|\\.)*)"')
+    rx_ref = re.compile(r'"ref": "((?:[^"\\]|\\.)*)"')
+    while todo:
+        k = todo.pop()
+        if k in seen:
+            continue
+        seen.add(k)
+        obj = f.bodies.get(k) or consts.get(k) or statics.get(k)
+        if obj is None:
+            continue
+        text = json.dumps(obj, sort_keys=True)
+        h.update(k.encode())
+        h.update(text.encode())
+        for m in rx_key.finditer(text):
+            todo.append(json.loads('"' + m.group(1) + '"'))
+        for m in rx_ref.finditer(text):
+            todo.append(json.loads('"' + m.group(1) + '"'))
+    for t in sorted(f.types):
+        if t.startswith(('date::', 'common::', 'error::', 'std::result::Result<date::')):
+            h.update(json.dumps(f.types[t], sort_keys=True).encode())
+    return os.path.join(pipeline.WORK, 'kcache', h.hexdigest()[:24] + '.json')
 
 
 def _kernel_obls():
